@@ -1,11 +1,492 @@
 package main
 
 import (
+	"encoding/json"
+	"flag"
 	"fmt"
 	"os"
+	"path/filepath"
+	"sort"
+	"strconv"
+	"strings"
+	"sync"
+	"time"
+
+	"golang.org/x/tools/go/ssa"
 )
 
+type TaskSpec struct {
+	Harness   string
+	ArgSets   [][]int64
+	Solver    string
+	TimeoutMs int
+	NoMerge   bool
+	MaxPaths  int64
+	Reach     []string // reach ids that must be witnessed by at least one feasible path (across arg sets)
+	Workers   int
+	Asserts   []string // assertion-id prefixes this property selects from a shared harness (nil: all)
+}
+
+type PropSpec struct {
+	ID          string
+	Quick       []TaskSpec
+	Thorough    []TaskSpec
+	Assumptions []string
+	Bounds      map[string]string // tier -> text
+	Outside     string
+}
+
+type KnownFinding struct {
+	Properties []string `json:"properties"`
+	ID         string   `json:"id"`
+	Status     string   `json:"status"` // open | fixed
+	What       string   `json:"what"`
+	Commit     string   `json:"commit,omitempty"`
+}
+
+func loadKnown() []KnownFinding {
+	b, err := os.ReadFile(filepath.Join(verifDir(), "known_findings.json"))
+	if err != nil {
+		return nil
+	}
+	var k struct {
+		Findings []KnownFinding `json:"findings"`
+	}
+	if err := json.Unmarshal(b, &k); err != nil {
+		fmt.Fprintln(os.Stderr, "known_findings.json:", err)
+		os.Exit(2)
+	}
+	return k.Findings
+}
+
+func cross(ranges ...[]int64) [][]int64 {
+	res := [][]int64{{}}
+	for _, r := range ranges {
+		var nr [][]int64
+		for _, p := range res {
+			for _, v := range r {
+				nr = append(nr, append(append([]int64{}, p...), v))
+			}
+		}
+		res = nr
+	}
+	return res
+}
+
+func seq(lo, hi int64) []int64 {
+	var r []int64
+	for i := lo; i <= hi; i++ {
+		r = append(r, i)
+	}
+	return r
+}
+
+func ints(v ...int64) []int64 { return v }
+
+type taskRun struct {
+	spec TaskSpec
+	args []int64
+	res  *TaskResult
+}
+
 func cmdMain(cmd string, args []string) {
-	fmt.Fprintln(os.Stderr, "unknown command", cmd)
-	os.Exit(2)
+	switch cmd {
+	case "check":
+		fs := flag.NewFlagSet("check", flag.ExitOnError)
+		prop := fs.String("property", "", "property id")
+		tier := fs.String("tier", "", "quick|thorough")
+		only := fs.String("only", "", "restrict to harnesses containing this substring")
+		verbose := fs.Bool("v", false, "verbose")
+		fs.Parse(args)
+		if *tier == "" {
+			*tier = os.Getenv("VERIF_TIER")
+		}
+		if *tier == "" {
+			*tier = "quick"
+		}
+		os.Exit(runCheck(*prop, *tier, *only, *verbose))
+	case "replay":
+		if len(args) < 1 {
+			fmt.Fprintln(os.Stderr, "usage: gosmt replay <file>")
+			os.Exit(2)
+		}
+		os.Exit(replayFile(args[0]))
+	case "list":
+		for _, id := range propIDs() {
+			fmt.Println(id)
+		}
+	default:
+		fmt.Fprintln(os.Stderr, "unknown command", cmd)
+		os.Exit(2)
+	}
+}
+
+func propIDs() []string {
+	var ids []string
+	for id := range propTable() {
+		ids = append(ids, id)
+	}
+	sort.Strings(ids)
+	return ids
+}
+
+func runCheck(prop, tier, only string, verbose bool) int {
+	t0 := time.Now()
+	spec, ok := propTable()[prop]
+	if !ok {
+		fmt.Fprintln(os.Stderr, "unknown property", prop)
+		return 2
+	}
+	seed := int64(0)
+	if s := os.Getenv("VERIF_SEED"); s != "" {
+		seed, _ = strconv.ParseInt(s, 10, 64)
+	}
+	specs := spec.Quick
+	if tier == "thorough" && spec.Thorough != nil {
+		specs = spec.Thorough
+	}
+	known := loadKnown()
+	openKnown := map[string]bool{}
+	var openList []string
+	for _, k := range known {
+		if k.Status == "open" {
+			openKnown[k.ID] = true
+			openList = append(openList, k.ID)
+		}
+	}
+	sort.Strings(openList)
+
+	prog, pkg, err := loadProgram(nil)
+	if err != nil {
+		fmt.Println("INCONCLUSIVE: cannot load /repo with harness overlay:", err)
+		return 2
+	}
+	// tasks
+	var runs []*taskRun
+	for _, s := range specs {
+		if only != "" && !strings.Contains(s.Harness, only) {
+			continue
+		}
+		if pkg.Func(s.Harness) == nil {
+			fmt.Println("INCONCLUSIVE: harness not found:", s.Harness)
+			return 2
+		}
+		if len(s.ArgSets) == 0 {
+			runs = append(runs, &taskRun{spec: s})
+		} else {
+			for _, a := range s.ArgSets {
+				runs = append(runs, &taskRun{spec: s, args: a})
+			}
+		}
+	}
+	runTasks(prog, pkg, runs, openKnown, verbose)
+
+	// aggregate
+	agg := &TaskResult{EndKinds: map[string]int64{}, Reached: map[string]int64{}, Funcs: map[string]int64{}}
+	var allV []Violation
+	var inconclusive []string
+	var witnesses []Violation
+	harnesses := map[string]bool{}
+	for _, r := range runs {
+		res := r.res
+		harnesses[res.Harness] = true
+		if verbose {
+			fmt.Fprintln(os.Stderr, res.Summary())
+		}
+		agg.Paths += res.Paths
+		agg.Steps += res.Steps
+		agg.Asserts += res.Asserts
+		agg.NonTrivial += res.NonTrivial
+		agg.Folded += res.Folded
+		agg.Unknowns += res.Unknowns
+		agg.Merges += res.Merges
+		agg.MergeFails += res.MergeFails
+		agg.Solver.Queries += res.Solver.Queries
+		agg.Solver.Sat += res.Solver.Sat
+		agg.Solver.Unsat += res.Solver.Unsat
+		agg.Solver.Unknown += res.Solver.Unknown
+		agg.Solver.Errors += res.Solver.Errors
+		agg.Solver.Time += res.Solver.Time
+		if res.Solver.MaxQuery > agg.Solver.MaxQuery {
+			agg.Solver.MaxQuery = res.Solver.MaxQuery
+		}
+		for k, v := range res.EndKinds {
+			agg.EndKinds[k] += v
+		}
+		for k, v := range res.Reached {
+			agg.Reached[k] += v
+		}
+		for k, v := range res.Funcs {
+			agg.Funcs[k] += v
+		}
+		for _, v := range res.Violations {
+			if len(r.spec.Asserts) > 0 && v.Kind == "assert" && !hasPrefixAny(v.ID, r.spec.Asserts) {
+				continue
+			}
+			allV = append(allV, v)
+		}
+		for _, s := range res.Inconclusive {
+			inconclusive = append(inconclusive, fmt.Sprintf("%s%v: %s", res.Harness, res.Args, s))
+		}
+		if len(agg.Samples) < 8 {
+			agg.Samples = append(agg.Samples, res.Samples...)
+		}
+		witnesses = append(witnesses, res.Witnesses...)
+	}
+	// vacuity: required reach ids
+	var missing []string
+	for _, s := range specs {
+		if only != "" && !strings.Contains(s.Harness, only) {
+			continue
+		}
+		for _, id := range s.Reach {
+			if agg.Reached[id] == 0 {
+				missing = append(missing, id)
+			}
+		}
+	}
+	for _, r := range runs {
+		if len(r.res.Reached) == 0 && r.res.EndKinds["ok"] == 0 && len(r.res.Violations) == 0 && len(r.res.Inconclusive) == 0 {
+			missing = append(missing, fmt.Sprintf("%s%v: no feasible path reached the end", r.res.Harness, r.res.Args))
+		}
+	}
+
+	// replay: counterexamples (dedupe per assertion id, first 2) and witnesses
+	byID := map[string][]Violation{}
+	var order []string
+	for _, v := range allV {
+		k := v.Kind + ":" + v.ID + ":" + v.Known
+		if v.Kind == "panic" {
+			k = v.Kind + ":" + v.Harness
+		}
+		if len(byID[k]) == 0 {
+			order = append(order, k)
+		}
+		byID[k] = append(byID[k], v)
+	}
+	sort.Strings(order)
+	var cases []*ReplayCase
+	n := 0
+	for _, k := range order {
+		for i, v := range byID[k] {
+			if i >= 2 {
+				break
+			}
+			cases = append(cases, &ReplayCase{V: v, Name: fmt.Sprintf("%s_%d", prop, n)})
+			n++
+		}
+	}
+	var wcases []*ReplayCase
+	if len(witnesses) > 24 {
+		// deterministic subsample by seed
+		step := len(witnesses) / 24
+		var w2 []Violation
+		for i := int(seed) % step; i < len(witnesses); i += step {
+			w2 = append(w2, witnesses[i])
+		}
+		witnesses = w2
+	}
+	for i, v := range witnesses {
+		wcases = append(wcases, &ReplayCase{V: v, Name: fmt.Sprintf("%s_w%d", prop, i)})
+	}
+	all := append(append([]*ReplayCase{}, cases...), wcases...)
+	if err := runReplays(all, nil, nil); err != nil {
+		inconclusive = append(inconclusive, "replay failed: "+err.Error())
+	}
+	validated := 0
+	for _, c := range wcases {
+		if c.Outcome == "<nil>" {
+			validated++
+			os.Remove(c.Path)
+		} else {
+			inconclusive = append(inconclusive, fmt.Sprintf("engine/native divergence on a witness of %s%v: native run says %q (vector %v)", c.V.Harness, c.V.Args, c.Outcome, c.V.Vector))
+		}
+	}
+
+	// classify counterexamples
+	violations := 0
+	knownHit := map[string]bool{}
+	var lines []string
+	for _, c := range cases {
+		if !c.Reproduced {
+			inconclusive = append(inconclusive, fmt.Sprintf("counterexample for %s %q in %s%v did not reproduce natively (%s): engine or stub discrepancy", c.V.Kind, c.V.ID, c.V.Harness, c.V.Args, c.Outcome))
+			continue
+		}
+		validated++
+		if kf := matchKnown(known, prop, c.V); kf != nil {
+			if !knownHit[kf.ID] {
+				knownHit[kf.ID] = true
+				lines = append(lines, fmt.Sprintf("KNOWN-FINDING: property=%s %s [%s; reproduced by %s]", prop, kf.What, kf.ID, c.Path))
+			}
+			continue
+		}
+		violations++
+		lines = append(lines, fmt.Sprintf("VIOLATION property=%s replay=%s", prop, c.Path))
+		fmt.Printf("  counterexample: %s %q harness %s%v vector=%v native=%q\n", c.V.Kind, c.V.ID, c.V.Harness, c.V.Args, c.V.Vector, c.Outcome)
+	}
+	for _, l := range lines {
+		fmt.Println(l)
+	}
+	for _, m := range missing {
+		inconclusive = append(inconclusive, "vacuity: reach witness not hit: "+m)
+	}
+	if agg.Solver.Errors > 0 {
+		inconclusive = append(inconclusive, fmt.Sprintf("%d solver error lines", agg.Solver.Errors))
+	}
+
+	wall := time.Since(t0)
+	writeEvidence(prop, tier, seed, spec, agg, harnesses, runs, violations, validated, inconclusive, wall, knownHit)
+
+	fmt.Printf("%s %s: %d tasks, %d paths, %d SSA instructions, %d obligations (%d non-trivial queries, %d folded), queries sat/unsat/unknown=%d/%d/%d, solver %.1fs, wall %.1fs, native-validated vectors=%d\n",
+		prop, tier, len(runs), agg.Paths, agg.Steps, agg.Asserts, agg.NonTrivial, agg.Folded, agg.Solver.Sat, agg.Solver.Unsat, agg.Solver.Unknown, agg.Solver.Time.Seconds(), wall.Seconds(), validated)
+	if violations > 0 {
+		return 1
+	}
+	if len(inconclusive) > 0 {
+		for i, s := range inconclusive {
+			if i < 20 {
+				fmt.Println("INCONCLUSIVE:", s)
+			}
+		}
+		return 2
+	}
+	fmt.Printf("OK property=%s held on everything explored\n", prop)
+	return 0
+}
+
+func hasPrefixAny(s string, ps []string) bool {
+	for _, p := range ps {
+		if strings.HasPrefix(s, p) {
+			return true
+		}
+	}
+	return false
+}
+
+func matchKnown(known []KnownFinding, prop string, v Violation) *KnownFinding {
+	if v.Known == "" {
+		return nil
+	}
+	for i := range known {
+		k := &known[i]
+		if k.Status == "open" && k.ID == v.Known {
+			return k
+		}
+	}
+	return nil
+}
+
+func runTasks(prog *ssa.Program, pkg *ssa.Package, runs []*taskRun, openKnown map[string]bool, verbose bool) {
+	total := 16
+	conc := len(runs)
+	if conc > total {
+		conc = total
+	}
+	if conc < 1 {
+		conc = 1
+	}
+	per := total / conc
+	sem := make(chan struct{}, conc)
+	var wg sync.WaitGroup
+	for _, r := range runs {
+		wg.Add(1)
+		sem <- struct{}{}
+		go func(r *taskRun) {
+			defer wg.Done()
+			defer func() { <-sem }()
+			cfg := defaultConfig()
+			cfg.Harness = r.spec.Harness
+			cfg.Args = r.args
+			cfg.KnownOpen = openKnown
+			if r.spec.Solver != "" {
+				cfg.Solver = r.spec.Solver
+			}
+			if r.spec.TimeoutMs > 0 {
+				cfg.TimeoutMs = r.spec.TimeoutMs
+			}
+			cfg.Merge = !r.spec.NoMerge
+			cfg.MaxPaths = r.spec.MaxPaths
+			cfg.Workers = per
+			if r.spec.Workers > 0 {
+				cfg.Workers = r.spec.Workers
+			}
+			cfg.Verbose = false
+			r.res = RunTask(prog, pkg, cfg)
+			if verbose {
+				fmt.Fprintln(os.Stderr, "done:", r.res.Summary())
+			}
+		}(r)
+	}
+	wg.Wait()
+}
+
+func writeEvidence(prop, tier string, seed int64, spec PropSpec, agg *TaskResult, harnesses map[string]bool, runs []*taskRun, violations, validated int, inconclusive []string, wall time.Duration, knownHit map[string]bool) {
+	var fns []string
+	for f := range agg.Funcs {
+		if strings.Contains(f, "go-astits") || strings.Contains(f, "go-astikit") {
+			if !strings.Contains(f, ".Harness") && !strings.Contains(f, ".v") || strings.Contains(f, "go-astikit") {
+				fns = append(fns, strings.ReplaceAll(strings.ReplaceAll(f, "github.com/asticode/go-astits.", ""), "github.com/asticode/go-", ""))
+			}
+		}
+	}
+	sort.Strings(fns)
+	var hs []string
+	for h := range harnesses {
+		hs = append(hs, h)
+	}
+	sort.Strings(hs)
+	var reach []string
+	for k := range agg.Reached {
+		reach = append(reach, k)
+	}
+	sort.Strings(reach)
+	samples := []interface{}{}
+	for _, s := range agg.Samples {
+		samples = append(samples, s)
+	}
+	if len(samples) == 0 {
+		samples = append(samples, map[string]interface{}{"note": "all obligations folded syntactically; tasks", "tasks": len(runs)})
+	}
+	var kh []string
+	for k := range knownHit {
+		kh = append(kh, k)
+	}
+	sort.Strings(kh)
+	cov := map[string]interface{}{
+		"states":                        agg.Paths,
+		"transitions":                   agg.Steps,
+		"traces_validated_against_impl": validated,
+		"samples":                       samples,
+		"evaluations":                   agg.Asserts,
+		"distinct_nontrivial":           agg.NonTrivial,
+		"rule":                          "one obligation per vassert per explored path; non-trivial = the negated goal still contains a free variable after simplification and was decided by the SMT solver; distinct = different (assertion id, goal term, path condition)",
+		"functions_encoded":             fns,
+		"harnesses":                     hs,
+		"tasks":                         len(runs),
+		"bounds":                        spec.Bounds[tier],
+		"outside_claim":                 spec.Outside,
+		"paths_by_outcome":              agg.EndKinds,
+		"obligations_folded":            agg.Folded,
+		"queries":                       map[string]int{"total": agg.Solver.Queries, "unsat": agg.Solver.Unsat, "sat": agg.Solver.Sat, "unknown": agg.Solver.Unknown, "error_lines": agg.Solver.Errors},
+		"solver_time_s":                 agg.Solver.Time.Seconds(),
+		"max_query_s":                   agg.Solver.MaxQuery.Seconds(),
+		"diamond_merges":                agg.Merges,
+		"reach_witnesses":               reach,
+		"inconclusive":                  inconclusive,
+		"known_findings_reproduced":     kh,
+		"exhaustive":                    false,
+	}
+	ev := map[string]interface{}{
+		"property_id": prop,
+		"tier":        tier,
+		"seed":        seed,
+		"level":       "model_checking",
+		"coverage":    cov,
+		"assumptions": spec.Assumptions,
+		"wall_s":      wall.Seconds(),
+		"violations":  violations,
+	}
+	b, _ := json.MarshalIndent(ev, "", " ")
+	os.MkdirAll(filepath.Join(verifDir(), "evidence"), 0o755)
+	os.WriteFile(filepath.Join(verifDir(), "evidence", prop+".json"), b, 0o644)
 }
